@@ -8,7 +8,8 @@ import z3
 
 from .engine import (UFunc, Unsupp, PathEnd, RaiseExc, ReturnExc, BreakExc, ContinueExc, T, Int, Bool, Float, RecT, SeqT, FloatV, Rec,
                      PyList, SeqV, Opaque, ExcValue, BoundMethod, FuncRef, ClassInfo, World, Ctx, fresh, is_sym_int,
-                     is_sym_bool, is_intlike, to_int_term, to_bool_term, py_floordiv, py_mod, real_of, seq_of, LabelSort)
+                     is_sym_bool, is_intlike, to_int_term, to_bool_term, py_floordiv, py_mod, real_of, seq_of, LabelSort,
+                     SetV, MapV, s_len, s_at, s_concat, s_snoc, s_extract, s_contains, s_eq, s_empty, is_aseq)
 
 MAX_DEPTH = 14
 MAX_UNROLL = 64
@@ -83,7 +84,11 @@ class Interp:
         if isinstance(v, PyList):
             return len(v.items) > 0
         if isinstance(v, SeqV):
-            return z3.Length(v.term) > 0
+            return s_len(v.term) > 0
+        if isinstance(v, SetV):
+            if v.term is None:
+                return False
+            return self.theory(v.elem).CARDSET(v.term) > 0
         if isinstance(v, Rec):
             if "__bool__" in v.cls.methods:
                 return self.truthy(self.call_method(v, "__bool__", [], {}))
@@ -373,14 +378,65 @@ class Interp:
             for x, y in zip(xs, ys):
                 r = self.and_(r, self.equal(x, y))
             return r
+        if isinstance(a, SetV) and isinstance(b, SetV):
+            return self.set_term(a, b) == self.set_term(b, a)
         if isinstance(a, SeqV) or isinstance(b, SeqV):
             sa, sb = self.as_seq(a, b), self.as_seq(b, a)
-            return sa.term == sb.term
+            if is_aseq(sa.term) and sa.is_tuple != sb.is_tuple:
+                return False          # a tuple never equals a list
+            return s_eq(sa.term, sb.term)
         if isinstance(a, z3.ExprRef) and isinstance(b, z3.ExprRef) and a.sort() == b.sort():
             return a == b
         if type(a) is not type(b):
             return False
         raise Unsupp(f"equality of {a!r} and {b!r}")
+
+    def theory(self, elem):
+        th = self.world.theories.get(self.world.sort_of(elem).name())
+        if th is None:
+            raise Unsupp(f"no axiomatic sequence theory declared for element type {elem} (World.aseq before verification)")
+        return th
+
+    def set_term(self, a, like):
+        """array term of a set value; the untyped empty set takes the element type of its partner"""
+        if a.term is not None:
+            return a.term
+        elem = like.elem if like is not None and like.elem is not None else None
+        if elem is None:
+            raise Unsupp("operation on two untyped empty sets")
+        return z3.EmptySet(self.world.sort_of(elem))
+
+    def to_set(self, v):
+        """set(v) for the supported iterables"""
+        if isinstance(v, SetV):
+            return SetV(v.term, v.elem)
+        if isinstance(v, Rec) and "__iter__" in v.cls.methods:
+            v = self.call_method(v, "__iter__", [], {})
+        if isinstance(v, (tuple, PyList)):
+            items = v if isinstance(v, tuple) else v.items
+            if not items:
+                return SetV(None, None)
+            elem = self.type_of(items[0])
+            if elem is None:
+                raise Unsupp("set of values of unknown type")
+            t = z3.EmptySet(self.world.sort_of(elem))
+            for x in items:
+                t = z3.SetAdd(t, self.world.box(x, elem))
+            return SetV(t, elem)
+        if isinstance(v, SeqV) and is_aseq(v.term):
+            return SetV(self.theory(v.elem).SETOF(v.term), v.elem)
+        raise Unsupp(f"set() of {v!r}")
+
+    def enumerate_set(self, v, as_tuple):
+        """tuple(s) / list(s): SOME duplicate-free enumeration of the set (iteration order is unspecified)"""
+        if v.term is None:
+            return () if as_tuple else PyList([])
+        th = self.theory(v.elem)
+        t = z3.Const(self.ctx.fresh_name("enum"), th.sort)
+        self.ctx.assume(th.NODUP(t))
+        self.ctx.assume(th.SETOF(t) == v.term)
+        self.ctx.havocked = True
+        return SeqV(t, v.elem, as_tuple)
 
     def as_seq(self, v, like):
         if isinstance(v, SeqV):
@@ -398,7 +454,11 @@ class Interp:
                 r = self.or_(r, self.equal(x, it))
             return r
         if isinstance(container, SeqV):
-            return z3.Contains(container.term, z3.Unit(self.world.box(x, container.elem)))
+            return s_contains(container.term, self.world.box(x, container.elem))
+        if isinstance(container, SetV):
+            return z3.Select(container.term, self.world.box(x, container.elem))
+        if isinstance(container, MapV):
+            return z3.Select(container.dom, self.world.box(x, container.key_t))
         if isinstance(container, dict):
             if isinstance(x, (str, int)):
                 return x in container
@@ -425,6 +485,20 @@ class Interp:
                     return r
             if isinstance(b, Rec) and f"__r{name}__" in b.cls.methods:
                 return self.call_method(b, f"__r{name}__", [a], {})
+            raise RaiseExc("TypeError", node)
+        if isinstance(a, SetV) or isinstance(b, SetV):
+            if not (isinstance(a, SetV) and isinstance(b, SetV)):
+                raise RaiseExc("TypeError", node)
+            ta, tb = self.set_term(a, b), self.set_term(b, a)
+            elem = a.elem or b.elem
+            if isinstance(op, ast.BitOr):
+                return SetV(z3.SetUnion(ta, tb), elem)
+            if isinstance(op, ast.BitAnd):
+                return SetV(z3.SetIntersect(ta, tb), elem)
+            if isinstance(op, ast.Sub):
+                return SetV(z3.SetDifference(ta, tb), elem)
+            if isinstance(op, ast.BitXor):
+                return SetV(z3.SetUnion(z3.SetDifference(ta, tb), z3.SetDifference(tb, ta)), elem)
             raise RaiseExc("TypeError", node)
         if isinstance(a, (tuple, PyList, SeqV)) or isinstance(b, (tuple, PyList, SeqV)):
             return self.seq_binop(op, a, b)
@@ -520,7 +594,7 @@ class Interp:
                 return PyList(a.items + b.items)
             if isinstance(a, SeqV) or isinstance(b, SeqV):
                 sa, sb = self.as_seq(a, b), self.as_seq(b, a)
-                return SeqV(z3.Concat(sa.term, sb.term), sa.elem, sa.is_tuple)
+                return SeqV(s_concat(sa.term, sb.term), sa.elem, sa.is_tuple)
         if isinstance(op, ast.Mult):
             seq, k = (a, b) if isinstance(a, (tuple, PyList)) else (b, a)
             if isinstance(seq, (tuple, PyList)) and isinstance(k, int):
@@ -558,9 +632,9 @@ class Interp:
             if full in consts:
                 return consts[full]
             return FuncRef("builtin", full)
-        if isinstance(obj, (PyList, SeqV, FloatV, tuple, dict, str, float)) or is_intlike(obj):
+        if isinstance(obj, (PyList, SeqV, SetV, MapV, FloatV, tuple, dict, str, float)) or is_intlike(obj):
             return BoundMethod(obj, attr)
-        if isinstance(obj, FuncRef) and obj.kind == "builtin":
+        if isinstance(obj, FuncRef) and obj.kind in ("builtin", "type"):
             return FuncRef("builtin", obj.name + "." + attr)
         if obj is None:
             raise RaiseExc("AttributeError", node)
@@ -596,12 +670,17 @@ class Interp:
             raise RaiseExc("IndexError", node)
         if isinstance(obj, SeqV):
             it = to_int_term(idx)
-            ln = z3.Length(obj.term)
+            ln = s_len(obj.term)
             if self.ctx.branch(z3.And(it >= 0, it < ln)):
-                return self.world.unbox(obj.term[it], obj.elem)
+                return self.world.unbox(s_at(obj.term, it), obj.elem)
             if self.ctx.branch(z3.And(it < 0, it >= -ln)):
-                return self.world.unbox(obj.term[ln + it], obj.elem)
+                return self.world.unbox(s_at(obj.term, ln + it), obj.elem)
             raise RaiseExc("IndexError", node)
+        if isinstance(obj, MapV):
+            k = self.world.box(idx, obj.key_t)
+            if self.ctx.branch(z3.Select(obj.dom, k)):
+                return self.world.unbox(z3.Select(obj.val, k), obj.val_t)
+            raise RaiseExc("KeyError", node)
         if isinstance(obj, dict):
             if isinstance(idx, (str, int)) and idx in obj:
                 return obj[idx]
@@ -616,11 +695,11 @@ class Interp:
             r = items[slice(lo, hi, st)]
             return tuple(r) if isinstance(obj, tuple) else PyList(r)
         if isinstance(obj, SeqV) and st is None:
-            ln = z3.Length(obj.term)
+            ln = s_len(obj.term)
 
             if hi is None and isinstance(lo, int) and lo >= 0:
                 # s[k:] for a constant k >= 0: extract(s, k, len - k) (empty when k >= len)
-                return SeqV(z3.Extract(obj.term, z3.IntVal(lo), ln - lo), obj.elem, obj.is_tuple)
+                return SeqV(s_extract(obj.term, z3.IntVal(lo), ln - lo), obj.elem, obj.is_tuple)
 
             def norm(x, default):
                 if x is None:
@@ -629,7 +708,7 @@ class Interp:
                 x = z3.If(x < 0, x + ln, x)
                 return z3.If(x < 0, z3.IntVal(0), z3.If(x > ln, ln, x))
             a, b = norm(lo, z3.IntVal(0)), norm(hi, ln)
-            return SeqV(z3.Extract(obj.term, a, z3.If(b > a, b - a, z3.IntVal(0))), obj.elem, obj.is_tuple)
+            return SeqV(s_extract(obj.term, a, z3.If(b > a, b - a, z3.IntVal(0))), obj.elem, obj.is_tuple)
         raise Unsupp("slice")
 
     # ------------------------------------------------------------------ comprehensions (concrete iteration only)
@@ -677,25 +756,67 @@ class Interp:
             return None
         g = n.generators[0]
         it = self.eval(g.iter, env)
+        if isinstance(it, Rec) and "__iter__" in it.cls.methods and not it.cls.is_namedtuple:
+            it = self.call_method(it, "__iter__", [], {})
         if not isinstance(it, SeqV):
             return None
+        # a comprehension over a symbolic-length sequence whose body may raise / fork gets a loop contract: key "comp<k>"
+        # (k counts the symbolic comprehensions of the function under contract in execution order)
+        if self.in_top and self.spec is not None:
+            key = f"comp{self.comp_counter}"
+            self.comp_counter += 1
+            ls = self.spec.loops.get(key)
+            if ls is not None:
+                return ("loop", self.comp_as_loop(n, env, it, ls, key))
         i = z3.Int(self.ctx.fresh_name("ci"))
         e2 = dict(env)
-        self.assign(g.target, self.world.unbox(it.term[i], it.elem), e2)
+        self.assign(g.target, self.world.unbox(s_at(it.term, i), it.elem), e2)
         elem_obj = e2.get(g.target.id) if isinstance(g.target, ast.Name) else None
         self.pure += 1
+        self.ctx.pure_vars.append(i)
         try:
             val = self.eval(n.elt, e2)
         finally:
             self.pure -= 1
+            self.ctx.pure_vars.pop()
         if elem_obj is not None and val is elem_obj:
             val = IDENTITY
         return it, i, val, e2
+
+    comp_counter = 0
+
+    def comp_as_loop(self, n, env, it, ls, key):
+        """[elt for target in seq]  ==  comp_r = []; for target in seq: comp_r.append(elt)   cut by the contract's invariant"""
+        g = n.generators[0]
+        src = f"for {ast.unparse(g.target)} in comp_it:\n    comp_r.append({ast.unparse(n.elt)})"
+        node = ast.parse(src).body[0]
+        ast.copy_location(node, n)
+        for sub in ast.walk(node):
+            if not hasattr(sub, "lineno"):
+                sub.lineno, sub.col_offset = n.lineno, 0
+        node.lineno = n.lineno
+        e2 = dict(env)
+        e2["comp_it"], e2["comp_r"] = it, PyList([])
+        saved = self.spec.loops.get(-1)
+        self.spec.loops[-1] = ls
+        try:
+            self.sym_for(node, e2, it, -1, ivar="comp_i")
+        finally:
+            if saved is None:
+                self.spec.loops.pop(-1, None)
+            else:
+                self.spec.loops[-1] = saved
+        for k, v in e2.items():          # names bound by the body (walrus) stay local to the comprehension, as in python
+            if k in env and k not in ("comp_it", "comp_r") and k not in target_names(g.target):
+                env[k] = v
+        return e2["comp_r"]
 
     def e_ListComp(self, n, env):
         sc = self.sym_comp(n, env)
         if sc is None:
             return PyList(self.comp(n, env, lambda e: self.eval(n.elt, e)))
+        if sc[0] == "loop":
+            return sc[1]
         return self.sym_map(*sc[:3])
 
     def sym_map(self, it, i, val):
@@ -703,14 +824,15 @@ class Interp:
         if val is IDENTITY:
             return SeqV(it.term, it.elem, False)
         elem = self.type_of(val)
-        if elem is not None and self.same_term(self.world.box(val, elem), it.term[i]):
+        if elem is not None and self.same_term(self.world.box(val, elem), s_at(it.term, i)):
             return SeqV(it.term, it.elem, False)       # identity map
         if elem is None:
             raise Unsupp("element type of a symbolic comprehension")
-        r = z3.Const(self.ctx.fresh_name("mapped"), z3.SeqSort(self.world.sort_of(elem)))
-        rng = z3.And(i >= 0, i < z3.Length(it.term))
-        self.ctx.assume(z3.Length(r) == z3.Length(it.term))
-        self.ctx.assume(z3.ForAll([i], z3.Implies(rng, r[i] == self.world.box(val, elem)), patterns=[r[i]]))
+        ax = self.world.sort_of(elem).name() in self.world.theories     # element sorts with an axiomatic theory use it
+        r = z3.Const(self.ctx.fresh_name("mapped"), self.world.seq_sort(elem, ax))
+        rng = z3.And(i >= 0, i < s_len(it.term))
+        self.ctx.assume(s_len(r) == s_len(it.term))
+        self.ctx.assume(z3.ForAll([i], z3.Implies(rng, s_at(r, i) == self.world.box(val, elem)), patterns=[s_at(r, i)]))
         self.ctx.havocked = True
         self.ctx.ghost.setdefault("mapped", []).append((r, it.term))
         return SeqV(r, elem, False)
@@ -745,6 +867,8 @@ class Interp:
         sc = self.sym_comp(n, env)
         if sc is None:
             return PyList(self.comp(n, env, lambda e: self.eval(n.elt, e)))
+        if sc[0] == "loop":
+            return sc[1]
         return SymGen(*sc[:3])
 
     def e_DictComp(self, n, env):
@@ -825,9 +949,15 @@ class Interp:
         if nm == "list":
             return isinstance(v, PyList) or (isinstance(v, SeqV) and not v.is_tuple)
         if nm in ("Sequence", "Iterable"):
-            return isinstance(v, (tuple, PyList, SeqV, str)) or (isinstance(v, Rec) and v.cls.is_namedtuple)
+            return isinstance(v, (tuple, PyList, SeqV, str)) or (isinstance(v, Rec) and v.cls.is_namedtuple) \
+                or (nm == "Iterable" and isinstance(v, (SetV, MapV))) \
+                or (isinstance(v, Rec) and ("__iter__" in v.cls.methods if nm == "Iterable" else "Sequence" in v.cls.bases))
         if nm == "dict":
-            return isinstance(v, dict)
+            return isinstance(v, (dict, MapV))
+        if nm in ("set", "frozenset") :
+            return isinstance(v, SetV)
+        if nm == "slice":
+            return False
         if nm == "NoneType":
             return v is None
         if nm in self.world.classes or isinstance(v, Rec):
@@ -1023,7 +1153,11 @@ class Interp:
         if isinstance(v, PyList):
             return len(v.items)
         if isinstance(v, SeqV):
-            return z3.Length(v.term)
+            return s_len(v.term)
+        if isinstance(v, SetV):
+            if v.term is None:
+                return 0
+            return self.theory(v.elem).CARDSET(v.term)
         if isinstance(v, Rec) and "__len__" in v.cls.methods:
             return self.call_method(v, "__len__", [], {})
         if isinstance(v, Rec) and v.cls.is_namedtuple:
@@ -1070,7 +1204,7 @@ class Interp:
             g = args[0]
             if g.val is IDENTITY:
                 raise Unsupp("all() over the elements themselves")
-            return z3.ForAll([g.i], z3.Implies(z3.And(g.i >= 0, g.i < z3.Length(g.it.term)), to_bool_term(self.truthy(g.val))))
+            return z3.ForAll([g.i], z3.Implies(z3.And(g.i >= 0, g.i < s_len(g.it.term)), to_bool_term(self.truthy(g.val))))
         r = True
         for x in self.iter_concrete(args[0]):
             r = self.and_(r, self.truthy(x))
@@ -1079,7 +1213,7 @@ class Interp:
     def b_any(self, args, kw, node):
         if isinstance(args[0], SymGen):
             g = args[0]
-            return z3.Exists([g.i], z3.And(g.i >= 0, g.i < z3.Length(g.it.term), to_bool_term(self.truthy(g.val))))
+            return z3.Exists([g.i], z3.And(g.i >= 0, g.i < s_len(g.it.term), to_bool_term(self.truthy(g.val))))
         r = False
         for x in self.iter_concrete(args[0]):
             r = self.or_(r, self.truthy(x))
@@ -1094,6 +1228,12 @@ class Interp:
             return SeqV(r.term, r.elem, True)
         if isinstance(v, SeqV):
             return SeqV(v.term, v.elem, True)
+        if isinstance(v, SetV):
+            return self.enumerate_set(v, True)
+        if isinstance(v, z3.ExprRef) and v.sort() == LabelSort:
+            raise RaiseExc("TypeError", node)       # a (non-iterable) label
+        if isinstance(v, Rec) and "__iter__" in v.cls.methods and not v.cls.is_namedtuple:
+            return self.b_tuple([self.call_method(v, "__iter__", [], {})], kw, node)
         return tuple(self.iter_concrete(v))
 
     def b_list(self, args, kw, node):
@@ -1104,7 +1244,66 @@ class Interp:
             return self.sym_map(v.it, v.i, v.val)
         if isinstance(v, SeqV):
             return SeqV(v.term, v.elem, False)
+        if isinstance(v, SetV):
+            return self.enumerate_set(v, False)
+        if isinstance(v, Rec) and "__iter__" in v.cls.methods and not v.cls.is_namedtuple:
+            return self.b_list([self.call_method(v, "__iter__", [], {})], kw, node)
         return PyList(self.iter_concrete(v))
+
+    def b_functools_reduce(self, args, kw, node):
+        f, items = args[0], self.iter_concrete(args[1])
+        if len(args) > 2:
+            items = [args[2]] + items
+        if not items:
+            raise RaiseExc("TypeError", node)
+        acc = items[0]
+        for x in items[1:]:
+            acc = self.call(f, [acc, x], {}, node)
+        return acc
+
+    def b_itertools_chain(self, args, kw, node):
+        seqs = [a for a in args]
+        like = next((a for a in seqs if isinstance(a, SeqV)), None)
+        if like is None:
+            return PyList([x for a in seqs for x in self.iter_concrete(a)])
+        acc = None
+        for a in seqs:
+            a = self.as_seq(a, like)
+            acc = a.term if acc is None else s_concat(acc, a.term)
+        return SeqV(acc, like.elem, False)
+
+    def b_dict_fromkeys(self, args, kw, node):
+        """dict.fromkeys(seq) -- only its key order is modelled: the duplicate-free sequence of first occurrences
+        (assumed contract of the builtin: same members, no duplicates, relative order of first occurrences kept)"""
+        v = args[0]
+        if not (isinstance(v, SeqV) and is_aseq(v.term)) or len(args) > 1:
+            raise Unsupp("dict.fromkeys of this value")
+        th = self.theory(v.elem)
+        c = z3.Const(self.ctx.fresh_name("keys"), th.sort)
+        x, y = z3.Const("fk_x", self.world.sort_of(v.elem)), z3.Const("fk_y", self.world.sort_of(v.elem))
+        self.ctx.assume(th.NODUP(c))
+        self.ctx.assume(z3.ForAll([x], th.MEM(c, x) == th.MEM(v.term, x), patterns=[th.MEM(c, x), th.MEM(v.term, x)]))
+        self.ctx.assume(z3.ForAll([x, y], z3.Implies(z3.And(th.MEM(c, x), th.MEM(c, y)),
+                                                     (th.IDX(c, x) < th.IDX(c, y)) == (th.IDX(v.term, x) < th.IDX(v.term, y))),
+                                  patterns=[z3.MultiPattern(th.IDX(c, x), th.IDX(c, y))]))
+        # a duplicate-free PREFIX of the argument is kept as it is (instances for the syntactic prefixes of a concatenation)
+        k = z3.Int("fk_k")
+        pre = v.term
+        while True:
+            self.ctx.assume(z3.Implies(th.NODUP(pre), z3.And(th.LEN(pre) <= th.LEN(c),
+                                                             z3.ForAll([k], z3.Implies(z3.And(0 <= k, k < th.LEN(pre)), th.AT(c, k) == th.AT(pre, k)),
+                                                                       patterns=[th.AT(c, k), th.AT(pre, k)]))))
+            if z3.is_app(pre) and pre.decl().name() == th.APP.name():
+                pre = pre.arg(0)
+            else:
+                break
+        self.ctx.havocked = True
+        return SeqV(c, v.elem, False)
+
+    def b_set(self, args, kw, node):
+        if not args:
+            return SetV(None, None)
+        return self.to_set(args[0])
 
     def b_range(self, args, kw, node):
         if all(isinstance(a, int) for a in args):
@@ -1179,7 +1378,7 @@ class Interp:
 
     def b_deepcopy(self, args, kw, node):
         v = args[0]
-        return v.snapshot() if isinstance(v, (Rec, PyList, SeqV)) else v
+        return v.snapshot() if hasattr(v, "snapshot") else v
 
     def b_copy_deepcopy(self, args, kw, node):
         return self.b_deepcopy(args, kw, node)
@@ -1234,21 +1433,47 @@ class Interp:
             raise RaiseExc("ValueError", node)
         if isinstance(o, SeqV):
             if name == "append":
-                o.term = z3.Concat(o.term, z3.Unit(self.world.box(args[0], o.elem)))
+                o.term = s_snoc(o.term, self.world.box(args[0], o.elem))
                 return None
             if name == "extend":
                 other = self.as_seq(args[0], o)
-                o.term = z3.Concat(o.term, other.term)
+                o.term = s_concat(o.term, other.term)
                 return None
+            if name == "__iter__":
+                return o
+            if name == "index" and is_aseq(o.term):
+                th = self.theory(o.elem)
+                x = self.world.box(args[0], o.elem)
+                if self.ctx.branch(th.MEM(o.term, x)):
+                    return th.IDX(o.term, x)
+                raise RaiseExc("ValueError", node)
             if name == "copy":
                 return SeqV(o.term, o.elem, o.is_tuple)
             if name == "pop" and not args:
-                ln = z3.Length(o.term)
+                ln = s_len(o.term)
                 if not self.ctx.branch(ln > 0):
                     raise RaiseExc("IndexError", node)
-                last = self.world.unbox(o.term[ln - 1], o.elem)
-                o.term = z3.Extract(o.term, z3.IntVal(0), ln - 1)
+                last = self.world.unbox(s_at(o.term, ln - 1), o.elem)
+                o.term = s_extract(o.term, z3.IntVal(0), ln - 1)
                 return last
+        if isinstance(o, SetV):
+            if name in ("issubset", "issuperset") and isinstance(args[0], SetV):
+                a, b = (o, args[0]) if name == "issubset" else (args[0], o)
+                if a.term is None:
+                    return True
+                return z3.IsSubset(self.set_term(a, b), self.set_term(b, a))
+            if name == "update" and isinstance(args[0], SetV):
+                if args[0].term is not None:
+                    o.term = args[0].term if o.term is None else z3.SetUnion(o.term, args[0].term)
+                    o.elem = o.elem or args[0].elem
+                return None
+            if name == "add":
+                elem = o.elem or self.type_of(args[0])
+                base = o.term if o.term is not None else z3.EmptySet(self.world.sort_of(elem))
+                o.term, o.elem = z3.SetAdd(base, self.world.box(args[0], elem)), elem
+                return None
+            if name == "copy":
+                return SetV(o.term, o.elem)
         if isinstance(o, dict):
             if name == "get":
                 return o.get(args[0], args[1] if len(args) > 1 else None)
@@ -1298,7 +1523,7 @@ class Interp:
             if isinstance(y, PyList):
                 y.items.append(v)
             else:
-                y.term = z3.Concat(y.term, z3.Unit(self.world.box(v, y.elem)))
+                y.term = s_snoc(y.term, self.world.box(v, y.elem))
             return
         self.eval(s.value, env)
 
@@ -1369,7 +1594,7 @@ class Interp:
             cur.items.extend(self.iter_concrete(rhs))
             return
         if isinstance(cur, SeqV) and isinstance(s.op, ast.Add) and not cur.is_tuple:
-            cur.term = z3.Concat(cur.term, self.as_seq(rhs, cur).term)
+            cur.term = s_concat(cur.term, self.as_seq(rhs, cur).term)
             return
         self.assign(s.target, self.binop(s.op, cur, rhs, s), env)
 
@@ -1425,6 +1650,8 @@ class Interp:
     def s_For(self, s, env):
         ordinal = self.next_loop()
         it = self.eval(s.iter, env)
+        if isinstance(it, Rec) and "__iter__" in it.cls.methods and not it.cls.is_namedtuple:
+            it = self.call_method(it, "__iter__", [], {})
         if isinstance(it, SeqV) or (isinstance(it, tuple) and it and it[0] == "symrange"):
             return self.sym_for(s, env, it, ordinal)
         items = self.iter_concrete(it)
@@ -1469,13 +1696,13 @@ class Interp:
             raise Unsupp(f"while loop at line {s.lineno} has no invariant and did not exit within {MAX_UNROLL} iterations")
         self.cut_loop(s, env, ls, ordinal, cond=lambda e: self.eval(s.test, e), pre_body=None, post_body=None)
 
-    def sym_for(self, s, env, it, ordinal):
+    def sym_for(self, s, env, it, ordinal, ivar=None):
         ls = self.loop_spec(ordinal)
         if ls is None:
             raise Unsupp(f"for loop over a symbolic-length iterable at line {s.lineno} needs a loop contract")
-        ivar = f"_i{ordinal}"
+        ivar = ivar or f"_i{ordinal}"
         if isinstance(it, SeqV):
-            n = z3.Length(it.term)
+            n = s_len(it.term)
             env[ivar] = 0
 
             def nth(term, i):
@@ -1483,7 +1710,7 @@ class Interp:
                 if z3.is_app_of(term, z3.Z3_OP_SEQ_EXTRACT):
                     base, off, _ = term.children()
                     return base[off + i]
-                return term[i]
+                return s_at(term, i)
 
             def pre(e):
                 self.assign(s.target, self.world.unbox(nth(it.term, to_int_term(e[ivar])), it.elem), e)
@@ -1518,7 +1745,7 @@ class Interp:
     def cut_loop(self, s, env, ls, ordinal, cond, pre_body, post_body, extra_inv=None, extra_mod=()):
         ctx = self.ctx
         entry = dict(env)
-        entry_snap = {k: (v.snapshot() if isinstance(v, (Rec, PyList, SeqV)) else v) for k, v in env.items()}
+        entry_snap = {k: (v.snapshot() if hasattr(v, "snapshot") else v) for k, v in env.items()}
 
         def inv_holds(e):
             ns = NS({k: v for k, v in e.items() if not k.startswith("__")}, at_entry=NS(entry_snap), old=NS(self.old_args),
